@@ -123,3 +123,30 @@ Proof.
   destruct (node_dist b c (lw_evid c) (fst rw)) as [w|x]; [|discriminate].
   exists w. split; [reflexivity|]. inversion Hx. reflexivity.
 Qed.
+
+(* ---------------------------------------------------------------- simulate(): the CPDs it installs are proper columns *)
+Lemma point_mass_zero (names : list name) st : ~ In st names ->
+  qsum (map (fun s => if Z.eqb s st then 1 else 0) names) = 0.
+Proof.
+  induction names as [|y t IH]; intros H; [reflexivity|]. simpl.
+  destruct (Z.eqb y st) eqn:E; [apply Z.eqb_eq in E; exfalso; apply H; left; exact E|].
+  rewrite IH by (intros Hi; apply H; right; exact Hi). ring.
+Qed.
+Lemma point_mass_sum (names : list name) st : NoDup names -> In st names ->
+  qsum (map (fun s => if Z.eqb s st then 1 else 0) names) = 1.
+Proof.
+  induction names as [|y t IH]; intros Hn Hin; [destruct Hin|]. inversion Hn as [|? ? Hy Hn']; subst. simpl.
+  destruct (Z.eqb y st) eqn:E.
+  - apply Z.eqb_eq in E. subst. rewrite point_mass_zero by exact Hy. ring.
+  - destruct Hin as [->|Hin]; [rewrite Z.eqb_refl in E; discriminate|]. rewrite IH by assumption. ring.
+Qed.
+Lemma nth_map_lt {A B} (f : A -> B) (l : list A) d d' : forall k, (k < length l)%nat ->
+  nth k (map f l) d = f (nth k l d').
+Proof. induction l as [|x l IH]; intros [|k] H; simpl in *; try lia; [reflexivity|apply IH; lia]. Qed.
+Lemma virt_cpd_column nv x (q : list Qc) k : (k < length q)%nat ->
+  nth k (cvals (virt_cpd nv x q)) 0 + nth (length q + k) (cvals (virt_cpd nv x q)) 0 = 1.
+Proof.
+  intros H. unfold virt_cpd. simpl. rewrite app_nth1 by exact H.
+  rewrite app_nth2 by lia. replace (length q + k - length q)%nat with k by lia.
+  rewrite (nth_map_lt (fun y => 1 - y) q 0 0 k H). ring.
+Qed.
